@@ -47,7 +47,8 @@ let () =
            let (_, rev) = build (Stdlib.List.map (fun i -> (i.r_id, all_refs i)) pop) in
            Printf.printf "INV %s\n" (show (resolve_inverse isa pop rev x ent attr))
          | _ -> print_endline "INV ?")
-      | ["S"; hex] ->
+      | "S" :: hexl ->
+        let hex = (match hexl with h :: _ -> h | [] -> "") in
         (* S <hex of the text after DATA;>  ->  "I id KW r1 r2.." per instance, then "END abort=0|1 endsec=0|1 stop=<bytes left>" *)
         let n = String.length hex / 2 in
         let data = String.init n (fun i -> Char.chr (int_of_string ("0x" ^ String.sub hex (2 * i) 2))) in
